@@ -62,6 +62,13 @@ func (c *CrashAt) Before(op *Op) Verdict {
 }
 func (c *CrashAt) After(*Op) {}
 
+// HasFired reports whether the crash point was reached.
+func (c *CrashAt) HasFired() *Op {
+	c.mu.Lock()
+	defer c.mu.Unlock()
+	return c.Fired
+}
+
 // FailAt makes the K-th step matching Match fail (one-shot or sticky).
 type FailAt struct {
 	mu     sync.Mutex
